@@ -25,28 +25,74 @@ def _viol(clause, detail, base, pre, opt, t, toks, klass):
                           klass=klass)
 
 
-def _explain(net0, t, diffs):
-    """predicates that recompute exactly what a recorded defect does (tokens for known_findings signatures)"""
+def _explain(net0, t, n2=None, M=None, extra=None, opts=None, skip=()):
+    """Tokens for known-finding signatures.  Input predicates say that the precondition of a recorded defect holds;
+    "explained=" tokens come from predicates that RECOMPUTE what the defect does: the original is edited the way the
+    toolbox function wrongly edits it, solved, and must then agree exactly with the transformed net."""
     toks = []
     if t[0] == "xward" and abs(float(net0.sn_mva) - 1.) > 1e-9:
         toks.append("sn_mva!=1")
     if t[0] in ("line2imp", "line2imp2line", "imp2line2imp"):
         if list(net0.line.index) != list(range(len(net0.line))):
             toks.append("line_index_not_0..n-1")
-    if t[0] == "eg2gen":
-        idx = list(net0.ext_grid.index) if t[1] == "all" else [t[1]]
-        if any(abs(float(net0.ext_grid.at[i, "va_degree"])) > 0 for i in idx):
-            toks.append("ext_grid_va_degree!=0")
     if t[0] in ("cont_elem",) and len(net0.trafo3w) and (net0.switch.et == "t3").any():
         if list(net0.trafo3w.index) != list(range(len(net0.trafo3w))):
             toks.append("t3_switch_and_trafo3w_index_changes")
     if t[0] == "subnet" and (net0.switch.et == "t3").any():
         toks.append("t3_switch_in_net")
+    if n2 is None or M is None:
+        return toks
+    dc = bool(opts.get("dc"))
+
+    def agrees(variant, MM):
+        return na.run_pf(variant, opts) == "ok" and not b_tf.compare(variant, n2, MM, dc=dc, skip_cols=skip)
+    try:
+        if t[0] == "eg2gen":
+            idx = list(net0.ext_grid.index) if t[1] == "all" else [t[1]]
+            if any(abs(float(net0.ext_grid.at[i, "va_degree"])) > 0 for i in idx):
+                v = copy.deepcopy(net0)
+                v.ext_grid.loc[idx, "va_degree"] = 0.
+                if agrees(v, M):
+                    toks.append("explained=ext_grid_va_degree_dropped")
+        if t[0] == "fuse":
+            b1, b2 = t[1], t[2]
+            v = copy.deepcopy(net0)
+            hit = False
+            for tab, cols in b_tool.BRANCH_BUSCOLS.items():
+                for i in v[tab].index:
+                    if all(int(v[tab].at[i, c]) in (b1, b2) for c in cols) and bool(v[tab].at[i, "in_service"]):
+                        v[tab].at[i, "in_service"] = False
+                        hit = True
+            if hit:
+                MM = {"bus": M["bus"], "el": M["el"], "nopq": M.get("nopq", [])}
+                if na.run_pf(v, opts) == "ok":
+                    d = b_tf.compare(v, n2, MM, dc=dc, skip_cols=skip)
+                    # the dropped inner branches and their switches have no image
+                    d = [x for x in d if not ((x["table"] in b_tool.BRANCH_BUSCOLS or x["table"] == "switch")
+                                              and x["b"] == "missing image")]
+                    if not d:
+                        toks.append("explained=inner_branch_shunt_dropped")
+        if t[0] == "drop_inactive" and len(net0.trafo3w):
+            v = copy.deepcopy(net0)
+            hit = False
+            for i in v.trafo3w.index:
+                vm = [net0.res_bus.at[int(v.trafo3w.at[i, c]), "vm_pu"] for c in ("hv_bus", "mv_bus", "lv_bus")]
+                if bool(v.trafo3w.at[i, "in_service"]) and any(np.isnan(x) for x in vm) and not all(np.isnan(x) for x in vm):
+                    v.trafo3w.at[i, "in_service"] = False
+                    hit = True
+            if hit and na.run_pf(v, opts) == "ok":
+                MM = b_tool._prune_dead(copy.deepcopy(extra["raw_map"]), v)
+                if not b_tf.compare(v, n2, MM, dc=dc, skip_cols=skip):
+                    toks.append("explained=partly_connected_trafo3w_set_out_of_service")
+    except b_tool.HarnessError:
+        raise
+    except Exception as e:     # a predicate that cannot be evaluated explains nothing
+        toks.append("predicate_error=" + type(e).__name__)
     return toks
 
 
 def run_case(case):
-    net_in = na.build(case)
+    net_in = ba.build(case)
     b_tf.check_alphabet(net_in)
     pre = case.get("pre", ["id"])
     netP, _ = b_tf.apply_transform(net_in, pre)
@@ -76,7 +122,7 @@ def run_case(case):
             except b_tool.HarnessError:
                 raise
             except Exception as e:
-                toks = _explain(net0, t, []) + ["raises=" + type(e).__name__]
+                toks = _explain(net0, t) + ["raises=" + type(e).__name__]
                 out["violations"].append(_viol(clause, {"what": "toolbox function raises on an applicable target",
                                                         "exception": "%s: %s" % (type(e).__name__, str(e)[:200]), "tool": t},
                                                base, pre, opt, t, toks, t[0] + "/raises"))
@@ -88,7 +134,7 @@ def run_case(case):
             oc2 = na.run_pf(n2, opts)
             if oc2 != "ok":
                 cnt("transformed_" + oc2)
-                toks = _explain(net0, t, []) + ["outcome=" + oc2]
+                toks = _explain(net0, t) + ["outcome=" + oc2]
                 out["violations"].append(_viol(clause, {"what": "original converges, transformed net does not",
                                                         "outcome": oc2, "tool": t}, base, pre, opt, t, toks,
                                                t[0] + "/outcome"))
@@ -117,7 +163,7 @@ def run_case(case):
                         diffs.append({"table": "bus", "index": b1, "col": col + "_sum", "a": a, "b": b})
             if diffs:
                 d0 = diffs[0]
-                toks = _explain(net0, t, diffs) + ["table=" + str(d0["table"]), "col=" + str(d0["col"])]
+                toks = _explain(net0, t, n2, M, extra, opts, skip) + ["table=" + str(d0["table"]), "col=" + str(d0["col"])]
                 out["violations"].append(_viol(clause, {"tool": t, "n_diffs": len(diffs), "first": diffs[:4]},
                                                base, pre, opt, t, toks, "%s/%s" % (t[0], d0["table"])))
     out["outcome"] = "ok" if okany else "orig_not_converged"
@@ -133,7 +179,14 @@ def c23_menu(b):
     if b == "W3":
         extra += [["impedance", 1, 3, False], ["impedance", 1, 3, True]]
     if b == "I2":
-        extra += [["impedance", 1, 3, False], ["set", "switch", 0, "et", "l"]][:1]
+        extra += [["impedance", 1, 3, False], ["set", "line", 2, "c_nf_per_km", 0.]]       # line 2 has an open switch
+    # a capacitance-free line (accepted by replace_line_by_impedance) that also has an open line switch
+    if b == "R3":
+        extra += [["multi", [["set", "line", 1, "c_nf_per_km", 0.], ["set", "switch", 1, "closed", False]]]]
+    if b == "M4":
+        extra += [["multi", [["set", "line", 1, "c_nf_per_km", 0.], ["set", "switch", 0, "closed", False]]]]
+    if b == "T3":
+        extra += [["multi", [["set", "line", 0, "c_nf_per_km", 0.], ["switch", 2, 0, "l", False, 0.]]]]
     for d in extra:
         if d not in m:
             m.append(d)
